@@ -253,6 +253,22 @@ def search(ctx):
             if not (err <= 1e-8):
                 ctx.violation("C17:compose:%s" % par, "propagate(propagate(x,d1),d2) != propagate(x,d1+d2) (rel %.3g, %dx%d)" % (err, nx, ny),
                               dict(kind="compose", **info))
+            # chained directly on propagate's own output (dims as returned, no re-packing) and on a transposed copy of the input
+            p12b = propagate(p1, d2, cfsp=cfsp)
+            errb = _rel(np.asarray(p12b.transpose('x', 'y', ...).values).squeeze(), np.asarray(psum.transpose('x', 'y', ...).values).squeeze())
+            if not (errb <= 1e-8):
+                ctx.violation("C17:compose-chained:%s" % par, "propagating the output of propagate (dims %r) by d2 != propagate(x, d1+d2) (rel %.3g)" % (tuple(p1.dims), errb),
+                              dict(kind="compose-chained", dims=list(map(str, p1.dims)), **info))
+            imt = im.transpose('x', 'y', ...)
+            pt = propagate(imt, d1, cfsp=cfsp)
+            errt = _rel(np.asarray(pt.transpose('x', 'y', ...).values).squeeze(), np.asarray(p1.transpose('x', 'y', ...).values).squeeze())
+            if not (errt <= 1e-10):
+                ctx.violation("C17:dims-order", "propagating the same image stored with dims %r gives a different result (rel %.3g)" % (tuple(imt.dims), errt),
+                              dict(kind="dims-order", dims=list(map(str, imt.dims)), **info))
+            rt = ifft(fft(p1))
+            errr = _rel(np.asarray(rt.transpose(*p1.dims).values), np.asarray(p1.values))
+            if not (errr <= 1e-10):
+                ctx.violation("C17:ifft-fft-dims", "ifft(fft(x)) != x for an image with dims %r (rel %.3g)" % (tuple(p1.dims), errr), dict(kind="ifft-fft-dims", dims=list(map(str, p1.dims)), **info))
             # inverse when no frequency is evanescent
             if coarse:
                 pb = propagate(im1, -d1, cfsp=cfsp)
